@@ -111,10 +111,12 @@ type Interp struct {
 }
 
 type TapeEntry struct {
-	Kind string  `json:"k"`          // "u8","u64","bool","choose","rank","havoc"...
-	W    uint8   `json:"w"`          // width
-	Term *Term   `json:"-"`          // symbolic value (nil for concrete choices)
-	Val  uint64  `json:"v"`
+	Kind     string  `json:"k"` // "nondet","choose","rank","sched","crc","op",...
+	W        uint8   `json:"w"` // width
+	Term     *Term   `json:"-"` // symbolic value (nil for concrete choices)
+	Val      uint64  `json:"v"`
+	KeyTerms []*Term `json:"-"`             // rank: the argument bytes
+	Key      []int   `json:"key,omitempty"` // rank: argument bytes under the model
 }
 
 func (fr *frame) get(key ssa.Value) Value {
